@@ -88,10 +88,42 @@ fn derive(r: &mut Rng, d: &Model) -> Model {
 /// Non-contiguous derivation: drop an arbitrary vertex.
 fn derive_sparse(r: &mut Rng, d: &Model) -> Model {
     let vs = d.vert_list();
-    match r.below(4) {
+    match r.below(7) {
         0 if vs.len() >= 2 => {
             let x = *r.pick(&vs);
             d.induced(|v| v != x)
+        }
+        4 | 5 if vs.len() >= 2 => {
+            // same or smaller cardinality, but a vertex that D doesn't have
+            let x = *r.pick(&vs);
+            let mut h = d.induced(|v| v != x);
+            if r.chance(0.5) {
+                let y = *r.pick(&vs);
+                h = h.induced(|v| v != y);
+            }
+            let mut fresh = vs.iter().max().unwrap() + 1 + r.below(3);
+            if r.chance(0.5) {
+                // an id in a gap of V(D)
+                if let Some(g) = (0..*vs.iter().max().unwrap()).find(|g| !d.verts.contains(g)) {
+                    fresh = g;
+                }
+            }
+            h.verts.insert(fresh);
+            if r.chance(0.5) {
+                let keys = h.arc_list();
+                for a in keys {
+                    if r.chance(0.5) {
+                        h.remove(a.0, a.1);
+                    }
+                }
+            }
+            h
+        }
+        6 => {
+            // unrelated digraph on overlapping ids
+            let n = r.range(1, vs.len() + 1);
+            let m0 = gen::random_arcs(r, n, 0.3);
+            gen::sparsify(r, &m0)
         }
         1 => {
             let mut h = d.clone();
